@@ -284,6 +284,10 @@ Definition dispatch (n : Z) (args : list Z) : list Z :=
                              end
           | _ => [-9]
           end
+  | 26 => match dposix args with
+          | Some (r, us) => map (fun u => eb (posix_fold r u)) us
+          | None => [-9]
+          end
   | 25 => (* tzlocal model over the spec as C library: wall queries *)
       match dposix args with
       | Some (r, ws) => flat_map (fun '(w, f) => let '(off, d, nm) := tzlocal_observe_wall r w f in
